@@ -1,0 +1,169 @@
+//! Entry points on `Tree` that the existing test suite reaches through
+//! `#[cfg(test)]` helpers (rotate / flush / one compaction round), plus a
+//! read-only projection of the engine's state for conformance checks.
+
+use std::sync::Arc;
+
+use crate::compaction::leveled::Strategy;
+use crate::compaction::{CompactionChoice, CompactionInput, CompactionStrategy};
+use crate::error::Result;
+use crate::levels::LevelManifest;
+use crate::lsm::{CompactionOperations, Tree};
+
+/// One table of a level, as the manifest sees it.
+#[derive(Debug, Clone)]
+pub struct TableInfo {
+	pub id: u64,
+	pub level: u8,
+	pub smallest_seq: u64,
+	pub largest_seq: u64,
+	pub smallest_key: Vec<u8>,
+	pub largest_key: Vec<u8>,
+	pub num_entries: u64,
+	pub file_size: u64,
+	pub oldest_vlog_file_id: u64,
+}
+
+/// Projection of the engine state used by conformance checks.
+#[derive(Debug, Clone, Default)]
+pub struct TreeState {
+	pub visible_seq: u64,
+	pub snapshots: Vec<u64>,
+	pub oldest_active_txn: Option<u64>,
+	pub active_empty: bool,
+	pub active_wal: u64,
+	pub immutables: Vec<(u64, u64)>, // (table_id, wal_number)
+	pub tables: Vec<TableInfo>,
+	pub log_number: u64,
+	pub last_sequence: u64,
+	pub next_table_id: u64,
+	pub wal_active: u64,
+}
+
+/// Compaction strategy that forces one round out of a given level, selecting
+/// the tables exactly as the leveled strategy would for that level.
+struct ForceLevel {
+	level: u8,
+	inner: Strategy,
+}
+
+impl CompactionStrategy for ForceLevel {
+	fn pick_levels(&self, manifest: &LevelManifest) -> Result<CompactionChoice> {
+		let source_level = self.level;
+		if source_level > manifest.last_level_index() {
+			return Ok(CompactionChoice::Skip);
+		}
+		let levels = manifest.levels.get_levels();
+		let target_level = if source_level >= manifest.last_level_index() {
+			source_level
+		} else {
+			source_level + 1
+		};
+		let tables_to_merge = self.inner.select_tables_for_compaction(
+			&levels[source_level as usize],
+			&levels[target_level as usize],
+			source_level,
+		)?;
+		if tables_to_merge.is_empty() {
+			return Ok(CompactionChoice::Skip);
+		}
+		Ok(CompactionChoice::Merge(CompactionInput {
+			tables_to_merge,
+			source_level,
+			target_level,
+		}))
+	}
+}
+
+impl Tree {
+	/// Move the active memtable to the immutable queue (no-op when empty).
+	pub fn verif_rotate(&self) -> Result<()> {
+		self.core.inner.rotate_memtable()
+	}
+
+	/// Flush the oldest immutable memtable, as the background task does.
+	/// Must run inside a tokio runtime (WAL clean-up is spawned).
+	pub fn verif_flush_one(&self) -> Result<()> {
+		self.core.inner.compact_memtable()?;
+		self.core.write_stall.signal_work_done();
+		Ok(())
+	}
+
+	/// Rotate and flush everything (same steps as the test-only `Tree::flush`).
+	pub fn verif_flush(&self) -> Result<()> {
+		self.core.inner.rotate_memtable()?;
+		self.core.inner.flush_all_immutables_sync()?;
+		self.core.write_stall.signal_work_done();
+		Ok(())
+	}
+
+	/// One compaction round chosen by the production (leveled) strategy.
+	pub fn verif_compact_auto(&self) -> Result<()> {
+		let strategy = Arc::new(Strategy::from_options(Arc::clone(&self.core.inner.opts)));
+		self.core.inner.compact(strategy)?;
+		self.core.write_stall.signal_work_done();
+		Ok(())
+	}
+
+	/// One compaction round out of `level` (tables selected as the leveled
+	/// strategy selects them for that level).
+	pub fn verif_compact(&self, level: u8) -> Result<()> {
+		let strategy = Arc::new(ForceLevel {
+			level,
+			inner: Strategy::from_options(Arc::clone(&self.core.inner.opts)),
+		});
+		self.core.inner.compact(strategy)?;
+		self.core.write_stall.signal_work_done();
+		Ok(())
+	}
+
+	/// Read-only projection of the engine state.
+	pub fn verif_state(&self) -> TreeState {
+		let inner = &self.core.inner;
+		let mut st = TreeState {
+			visible_seq: self.core.seq_num(),
+			snapshots: inner.snapshot_tracker.get_all_snapshots(),
+			oldest_active_txn: inner.active_txn_tracker.oldest(),
+			..Default::default()
+		};
+		if let Ok(a) = inner.active_memtable.read() {
+			st.active_empty = a.is_empty();
+			st.active_wal = a.get_wal_number();
+		}
+		if let Ok(m) = inner.level_manifest.read() {
+			st.log_number = m.get_log_number();
+			st.last_sequence = m.get_last_sequence();
+			st.next_table_id = m.next_table_id.load(std::sync::atomic::Ordering::SeqCst);
+			for (li, level) in m.levels.get_levels().iter().enumerate() {
+				for t in &level.tables {
+					st.tables.push(TableInfo {
+						id: t.id,
+						level: li as u8,
+						smallest_seq: t.meta.properties.seqnos.0,
+						largest_seq: t.meta.properties.seqnos.1,
+						smallest_key: t
+							.meta
+							.smallest_point
+							.as_ref()
+							.map(|k| k.user_key.clone())
+							.unwrap_or_default(),
+						largest_key: t
+							.meta
+							.largest_point
+							.as_ref()
+							.map(|k| k.user_key.clone())
+							.unwrap_or_default(),
+						num_entries: t.meta.properties.num_entries,
+						file_size: t.file_size,
+						oldest_vlog_file_id: t.meta.properties.oldest_vlog_file_id,
+					});
+				}
+			}
+		}
+		if let Ok(imm) = inner.immutable_memtables.read() {
+			st.immutables = imm.iter().map(|e| (e.table_id, e.wal_number)).collect();
+		}
+		st.wal_active = inner.wal.read().get_active_log_number();
+		st
+	}
+}
